@@ -411,7 +411,7 @@ func (p *Pool) Gen(s *choice.Stream, maxLen int) Input {
 	}
 	if maxLen > 0 && len(b) > maxLen {
 		// cut at a drawn point so that truncated runes at EOF occur
-		cut := maxLen - s.Draw(8, "cut")
+		cut := maxLen - s.Draw(14, "cut")
 		if cut < 0 {
 			cut = 0
 		}
